@@ -244,7 +244,10 @@ namespace pika::threads::coroutines {
 
             void reset_stack()
             {
-                PIKA_ASSERT(m_stack);
+                // the stack is allocated by init(), right before the first run: a context that
+                // never ran has none
+                if (m_stack == nullptr) return;
+
                 if (posix::reset_stack(m_stack, static_cast<std::size_t>(m_stack_size)))
                 {
 # if defined(PIKA_HAVE_COROUTINE_COUNTERS)
@@ -255,7 +258,10 @@ namespace pika::threads::coroutines {
 
             void rebind_stack()
             {
-                PIKA_ASSERT(m_stack);
+                // nothing to re-initialize for a context that never ran: init() builds the
+                // first frame
+                if (m_stack == nullptr) return;
+
 # if defined(PIKA_HAVE_COROUTINE_COUNTERS)
                 increment_stack_recycle_count();
 # endif
